@@ -1,5 +1,66 @@
-From HT Require Import Base.Prelude World.World.
-(* placeholder until the settlement theorems land *)
-Theorem C02_failed_tx_unchanged : forall w o e, exec w o = Err e -> step w o = w.
-Proof. intros w o e H. unfold step. now rewrite H. Qed.
-Print Assumptions C02_failed_tx_unchanged.
+(* C02 — Swap settlement moves exactly the declared asset and amounts.
+   [bal w x a] is account a's balance of asset x; [same_config w w'] says nothing but balances moved
+   (pairs, registry, owner, supplies, allowances, minters unchanged).  The model follows the repaired
+   receive_cw20 (KNOWN_FINDINGS.txt, fixed: C02). *)
+From HT Require Import Base.Prelude Num.Arith Amm.Formulas Amm.Guards World.World Proofs.AuthProofs Proofs.LedgerProofs.
+
+(* a single payment moves exactly n of asset x from -> to and nothing else (aliasing included) *)
+Theorem C02_payment : forall w from x n to w', pay_asset w from x n to = Ok w' ->
+  n <> 0 /\ n <= bal w x from /\ same_config w w' /\
+  (forall y a, bal w' y a =
+     if asset_eqb y x then
+       (if from =? to then bal w x a
+        else if a =? from then bal w x a - n else if a =? to then bal w x a + n else bal w x a)
+     else bal w y a).
+Proof. exact pay_asset_effect. Qed.
+
+(* the swap proper: priced on the reserves net of the delivered offer; exactly [ret] of the ask asset
+   moves pair -> receiver; nothing else changes.  [w] already contains the delivered offer. *)
+Theorem C02_settlement : forall w p ps funds sender offer amount bp ms to w' ret spread comm,
+  pair_swap w p ps funds sender offer amount bp ms to = Ok (w', (ret, spread, comm)) ->
+  let ask := if asset_eqb offer (p_a0 ps) then p_a1 ps else p_a0 ps in
+  let rcv := match to with Some t => t | None => sender end in
+  (asset_eqb offer (p_a0 ps) = true \/ asset_eqb offer (p_a1 ps) = true) /\
+  (exists x y, compute_swap x y amount (p_comm ps) = Ok (ret, spread, comm) /\
+               x + amount = bal w offer p /\ y = bal w ask p) /\
+  same_config w w' /\
+  (forall z a, bal w' z a =
+     if asset_eqb z ask && negb (ret =? 0) && negb (p =? rcv) then
+       (if a =? p then bal w ask a - ret else if a =? rcv then bal w ask a + ret else bal w ask a)
+     else bal w z a).
+Proof. exact pair_swap_settlement. Qed.
+
+(* the two entry paths deliver exactly the named asset and amount in the same transaction:
+   execute-swap: the offer is native and the attached coin of that denom equals the named amount *)
+Theorem C02_delivered_execute : forall w p c funds offer amount bp ms to w',
+  exec w (OSwap p c funds offer amount bp ms to) = Ok w' ->
+  exists ps w1 out, w_pairs w p = Some ps /\ move_funds w c p funds = Ok w1 /\ asset_is_native offer = true /\
+    funds_of offer funds amount = Ok tt /\ pair_swap w1 p ps funds c offer amount bp ms to = Ok (w', out).
+Proof. exact exec_swap_decompose. Qed.
+(* hook swap: the named asset IS the token that was sent, the named amount IS the amount sent *)
+Theorem C02_delivered_hook : forall w ta sender p n offer amount bp ms to w' ps,
+  w_pairs w p = Some ps ->
+  cw20_send w ta sender p n (HSwap offer amount bp ms to) = Ok w' ->
+  exists w1 out, with_token w ta (fun t => tok_transfer t sender p n) = Ok w1 /\
+    offer = AToken ta /\ amount = n /\ (p_a0 ps = AToken ta \/ p_a1 ps = AToken ta) /\
+    pair_swap w1 p ps [] sender offer amount bp ms to = Ok (w', out).
+Proof. exact cw20_send_swap_decompose. Qed.
+(* attached funds (pairwise distinct denoms) move exactly the attached coins caller -> pair *)
+Theorem C02_attached_funds : forall w from to funds w', move_funds w from to funds = Ok w' ->
+  NoDup (map fst funds) -> from <> to -> same_config w w' /\
+  (forall t a, bal w' (AToken t) a = bal w (AToken t) a) /\
+  (forall d a, let v := match find (fun c => fst c =? d) funds with Some c => snd c | None => 0 end in
+     w_bank w' a d = if a =? from then w_bank w a d - v else if a =? to then w_bank w a d + v else w_bank w a d).
+Proof. exact move_funds_effect. Qed.
+(* a hook whose named asset differs from the calling token is rejected (the repaired defect) *)
+Theorem C02_hook_confusion_rejected : forall w p ps c funds cs ca offer amount bp ms to w',
+  pair_receive w p ps c funds cs ca (HSwap offer amount bp ms to) = Ok w' ->
+  (p_a0 ps = AToken c \/ p_a1 ps = AToken c) /\ offer = AToken c /\ amount = ca.
+Proof. exact pair_receive_swap_auth. Qed.
+
+Print Assumptions C02_payment.
+Print Assumptions C02_settlement.
+Print Assumptions C02_delivered_execute.
+Print Assumptions C02_delivered_hook.
+Print Assumptions C02_attached_funds.
+Print Assumptions C02_hook_confusion_rejected.
